@@ -725,7 +725,18 @@ impl CodegenContext {
                             let opts = BankOptions {
                                 name: name.clone(),
                                 size: size.map(|s| s as usize),
-                                fill: extractor.try_get_i64(self, "fill")?.map(|s| s as u8),
+                                fill: match extractor.try_get_i64(self, "fill")? {
+                                    Some(fill) if !(0..=255).contains(&fill) => {
+                                        return Err(Diagnostic::error()
+                                            .with_message(format!(
+                                                "the fill value of bank '{}' should be a byte",
+                                                name
+                                            ))
+                                            .with_labels(vec![id.span.to_label()])
+                                            .into());
+                                    }
+                                    fill => fill.map(|s| s as u8),
+                                },
                                 create_segment: extractor
                                     .try_get_i64(self, "create-segment")?
                                     .map(|s| s != 0)
@@ -755,8 +766,9 @@ impl CodegenContext {
                             let mut opts = SegmentOptions::default();
                             let name = extractor.get_string(self, "name")?;
                             let name = self.to_identifier(id.span, name)?;
-                            match extractor.try_get_i64(self, "start") {
-                                Ok(Some(val)) => {
+                            // (An error is not something a later pass can repair: that is what 'None' is for)
+                            match extractor.try_get_i64(self, "start")? {
+                                Some(val) => {
                                     log::trace!(
                                         "Segment '{}' was able to evaluate the 'start' to: {}",
                                         name,
@@ -764,20 +776,13 @@ impl CodegenContext {
                                     );
                                     opts.initial_pc = val.into()
                                 }
-                                Ok(None) => {
+                                None => {
+                                    // Absent, or marked as undefined and retried later
                                     log::trace!(
                                         "Segment '{}' has a default value for 'start'",
                                         name,
                                     );
                                     opts.initial_pc = 0.into()
-                                }
-                                Err(_) => {
-                                    // Will be marked as undefined and retried later
-                                    log::trace!(
-                                        "Segment '{}' was not able to evaluate the 'start'",
-                                        name
-                                    );
-                                    opts.initial_pc = 0.into();
                                 }
                             }
                             if let Some(write) = extractor.try_get_i64(self, "write")? {
